@@ -179,9 +179,17 @@ def run(tier):
             ck.sample(L0[:6])
     # S: optimisers under seeded schedules
     exes = core.build_exe("traindrv_sched", ["traindrv.c", "vsched.c"], "sanq", extra_ldflags=pc.WRAP)
-    nseeds = 6 if tier == "quick" else 60
-    L = gen_script(ck.rng, tier, mt=True)
-    for seed in range(nseeds):
+    nseeds = 3 if tier == "quick" else 12
+    Lall = gen_script(ck.rng, tier, mt=True)
+    # one driver run per sample set: the scheduler's thread table is per process and every optimiser call creates its own pool
+    sets = []
+    for ln in Lall:
+        if ln.startswith("SAMPLES"):
+            sets.append([ln])
+        elif sets:
+            sets[-1].append(ln)
+    for seed in range(nseeds * len(sets)):
+        L = sets[seed % len(sets)]
         sp = os.path.join(od, "trs.script"); tp = os.path.join(od, "trs.ndjson")
         open(sp, "w").write("\n".join(L) + "\n")
         if os.path.exists(tp):
@@ -191,7 +199,7 @@ def run(tier):
             env.update({"VSCHED_POLICY": "pct", "VSCHED_PCT_D": str(2 + seed % 3), "VSCHED_PCT_K": "100"})
         rc, out = core.sh([exes, sp, tp], timeout=1800, env=env)
         evs = core.read_ndjson(tp) if os.path.exists(tp) else []
-        if rc in (44, 45):
+        if rc in (43, 44, 45):
             ck.warn("schedule seed %d inconclusive (scheduler rc=%d)" % (seed, rc)); continue
         if rc == 42:
             rp = ck.replay_path("train-sched-deadlock-%d.script" % seed, "\n".join(L) + "\n# env: %s\n" % json.dumps({k: v for k, v in env.items() if k.startswith("VSCHED")}))
